@@ -334,3 +334,30 @@ class Summaries:
                 seg.append(a)
         flush()
         return out
+
+    # -- the model's operation constants ---------------------------------------------------
+    def classes(self):
+        """Operations with identical canonical summaries are one operation of the model (representative = first member)."""
+        by = {}
+        order = []
+        for o in self.ops:
+            key = json.dumps(o["acc"], sort_keys=True)
+            if key not in by:
+                by[key] = {"name": o["name"], "acc": o["acc"], "members": []}
+                order.append(key)
+            by[key]["members"].append(o["name"])
+        return [by[k] for k in order]
+
+    def lines(self, plans):
+        rows = [{"kind": "op", "name": c["name"], "acc": c["acc"], "members": c["members"]} for c in self.classes()]
+        rows += [{"kind": "guard", "name": g, "acc": b} for g, b in sorted(self.guards.items())]
+        rows += [{"kind": "plan", "slots": p} for p in plans]
+        return rows
+
+
+def used_kinds(classes, guards):
+    n = {"r": 0, "w": 0, "u": 0, "gc": 0}
+    for c in classes:
+        for a in c["acc"]:
+            n[a["k"]] += 1
+    return n
